@@ -292,3 +292,82 @@ package raft
 //@   flags inline lockheld
 //@   loop range r.configuration.Members invariant [I6b] forall fid string :: fid in r.followers ==> r.followers[fid] != nil
 //@   loop range next.Members invariant [I6b] forall fid string :: fid in r.followers ==> r.followers[fid] != nil
+
+// ===========================================================================================
+// State transitions and elections (C02, C08, C16)
+// ===========================================================================================
+
+//@ func Raft.becomeFollower
+//@   flags inline lockheld
+//@   requires r.stateStorage != nil && r.operationManager != nil && r.followers != nil && r.logger != nil
+//@   requires forall id string :: id in r.followers ==> r.followers[id] != nil
+//@   requires term >= r.currentTerm
+//@   ensures [state] r.state == Follower && r.currentTerm == term && r.leaderID == leaderID
+//@   ensures [G2] term == old(r.currentTerm) && old(r.votedFor) != "" ==> r.votedFor == old(r.votedFor)
+//@   ensures [vote-cleared] term > old(r.currentTerm) ==> r.votedFor == ""
+//@   ensures [I7] persTerm == r.currentTerm && persVote == r.votedFor
+//@   ensures [tables-empty] r.operationManager != nil && card(dom(r.operationManager.pendingReplicated)) == 0 && card(dom(r.operationManager.pendingReadOnly)) == 0
+//@   ensures [snapshot-reset] r.snapshot == nil
+
+//@ func Raft.becomeCandidate
+//@   flags inline lockheld
+//@   requires r.stateStorage != nil && r.logger != nil
+//@   ensures [state] r.state == Candidate && r.currentTerm == old(r.currentTerm) + 1 && r.votedFor == r.id
+//@   ensures [I7] persTerm == r.currentTerm && persVote == r.votedFor
+
+//@ func Raft.becomePreCandidate
+//@   flags inline lockheld
+//@   requires r.logger != nil
+//@   ensures [frame] r.state == PreCandidate && r.currentTerm == old(r.currentTerm) && r.votedFor == old(r.votedFor) && persTerm == old(persTerm) && persVote == old(persVote) && r.commitIndex == old(r.commitIndex) && Llast == old(Llast)
+
+//@ func Raft.stepdown
+//@   flags inline lockheld
+//@   requires r.operationManager != nil && r.logger != nil
+//@   ensures [frame] r.state == Follower && r.currentTerm == old(r.currentTerm) && r.votedFor == old(r.votedFor) && persTerm == old(persTerm) && persVote == old(persVote)
+
+//@ func Raft.resetSnapshotFiles
+//@   flags inline lockheld
+
+//@ func operationManager.notifyLostLeaderShip
+//@   flags inline
+
+//@ func Raft.election
+//@   flags inline lockheld
+//@   requires r.configuration != nil && r.followers != nil && r.stateStorage != nil && r.operationManager != nil && r.log != nil && r.logger != nil
+//@   requires r.operationManager.leaderLease != nil
+//@   requires forall id string :: id in r.followers ==> r.followers[id] != nil
+//@   requires persTerm == r.currentTerm && persVote == r.votedFor && 0 <= Lfirst && Lfirst <= Llast && r.lastContact <= now
+//@   ensures [voter-only] !old(r.configuration.IsVoter[r.id]) ==> r.state == old(r.state) && r.currentTerm == old(r.currentTerm) && r.votedFor == old(r.votedFor)
+//@   ensures [quiet] now - old(r.lastContact) < r.options.electionTimeout ==> r.state == old(r.state) && r.currentTerm == old(r.currentTerm) && r.votedFor == old(r.votedFor)
+//@   ensures [leader-keeps] old(r.state) == Leader || old(r.state) == Shutdown ==> r.state == old(r.state) && r.currentTerm == old(r.currentTerm)
+//@   ensures [term-bump] r.currentTerm == old(r.currentTerm) || (r.currentTerm == old(r.currentTerm) + 1 && old(r.state) == Candidate && r.votedFor == r.id)
+//@   ensures [I7] persTerm == r.currentTerm && persVote == r.votedFor
+//@   ensures [G2] r.currentTerm == old(r.currentTerm) && old(r.votedFor) != "" ==> r.votedFor == old(r.votedFor)
+//@   ensures [leader-entry] r.state == Leader && old(r.state) != Leader ==> old(r.state) == Candidate && r.votedFor == r.id && r.currentTerm == old(r.currentTerm) + 1
+
+//@ func Raft.sendRequestVoteToPeers
+//@   flags inline lockheld
+
+//@ func Raft.sendRequestVote
+//@   requires votes != nil
+//@   release s1 [truthful] request.CandidateID == r.id && request.LastLogIndex == Llast && request.LastLogTerm == Lterm[Llast] && request.Prevote == prevote && (prevote ==> request.Term == r.currentTerm + 1) && (!prevote ==> request.Term == r.currentTerm)
+//@   release s1 [voter] r.configuration.IsVoter[id] && r.configuration.IsVoter[r.id]
+//@   at before-assign *votes assert [count] response.VoteGranted && err == nil && r.currentTerm <= request.Term && request.Prevote == prevote
+//@   at assign r.state assert [candidate-after-prevote] cnt(dom(r.configuration.IsVoter), vals(r.configuration.IsVoter)) < 2 * *votes
+//@   at call r.becomeLeader assert [becomeLeader.entry] !prevote && r.state == Candidate && request.Term == r.currentTerm && 2 * *votes > cntVoters(r.configuration)
+
+//@ func Raft.becomeLeader
+//@   flags inline lockheld
+//@   requires r.configuration != nil && r.followers != nil && r.log != nil && r.operationManager != nil && r.logger != nil
+//@   requires forall id string :: id in r.followers ==> r.followers[id] != nil
+//@   ensures [state] r.state == Leader && r.currentTerm == old(r.currentTerm) && r.votedFor == old(r.votedFor)
+//@   ensures [noop] Llast == old(Llast) + 1 && Lterm[Llast] == r.currentTerm && Ltyp[Llast] == NoOpEntry && forall i int :: i <= old(Llast) ==> Lterm[i] == old(Lterm[i]) && Ltyp[i] == old(Ltyp[i]) && Ldata[i] == old(Ldata[i])
+//@   ensures [reset] forall fid string :: fid in r.followers ==> r.followers[fid].matchIndex == 0
+//@   loop range r.followers invariant [reset] forall fid string :: fid in visited ==> r.followers[fid].matchIndex == 0
+
+//@ func Raft.sendAppendEntriesToPeers
+//@   flags inline lockheld
+//@ func Raft.tryApplyReadOnlyOperations
+//@   flags inline lockheld
+//@ func operationManager.markAsVerified
+//@   flags inline
